@@ -232,6 +232,9 @@ func (c *Ctx) factMatch(site ssa.Instruction, re string) (bool, string) {
 		if rx.MatchString(a) {
 			return true, a
 		}
+		if ca := canonAtom(a); ca != a && rx.MatchString(ca) {
+			return true, ca
+		}
 	}
 	return false, ""
 }
